@@ -116,6 +116,7 @@ def main():
     ap.add_argument("--replay")
     ap.add_argument("--seed", type=int, default=int(os.environ.get("VERIF_SEED", "0") or 0))
     ap.add_argument("--budget", type=float, default=None, help="wall-clock seconds for generated cases")
+    ap.add_argument("--no-fresh-probe", action="store_true", help="(internal) do not re-validate a failing case in a fresh process")
     ap.add_argument("--aux-of", default=None,
                     help="run as an auxiliary check of that property: report under its id, summary to replays/")
     args = ap.parse_args()
@@ -206,7 +207,11 @@ def main():
             return mod.model_request(line, impl)
         return mod.KIND + " " + line
 
+    recent = []      # the last few case lines run in this process (for failures that need earlier cases)
+
     def run_one(line, origin):
+        recent.append(line)
+        del recent[:-4]
         try:
             signal.setitimer(signal.ITIMER_REAL, getattr(mod, "CASE_WALL", 30))
             try:
@@ -250,7 +255,7 @@ def main():
                 known_hits.setdefault(kf["id"], (kf, line))
                 return
             if not spec_ok:
-                violations.append((line, impl, model, origin))
+                violations.append((line, impl, model, origin, list(recent[:-1])))
             else:
                 disagreements.append((line, impl, model, origin))
 
@@ -277,7 +282,7 @@ def main():
 
     if args.replay:
         data = json.load(open(args.replay))
-        lines = [data["case"]] if "case" in data else []
+        lines = list(data.get("history", [])) + ([data["case"]] if "case" in data else [])
         for line in lines:
             run_one(line, "replay")
     elif lean is not None and params is not None:
@@ -333,13 +338,41 @@ def main():
                     break
         return line
 
+    def fails_in_fresh_process(case, history=()):
+        """does `case` (after `history`) violate the Spec when replayed in a process of its own?"""
+        tmp = os.path.join(VERIF, "replays", f".probe-{pid}-{os.getpid()}.json")
+        json.dump({"case": case, "history": list(history)}, open(tmp, "w"))
+        try:
+            rc, out = sh(["/venv/bin/python", os.path.abspath(__file__), pid, "--replay", tmp, "--no-fresh-probe"],
+                         cwd=VERIF, timeout=900)
+            return rc == 1 and "no-failing-input-found" not in out
+        except Exception:
+            return False
+        finally:
+            if os.path.exists(tmp):
+                os.remove(tmp)
+
     if violations:
-        line, impl, model, origin = violations[0]
+        line, impl, model, origin, hist = violations[0]
         small = shrink(line) if lean is not None else line
+        history, note = [], ""
+        if not args.replay and not args.no_fresh_probe and lean is not None:
+            # a failure may depend on state the implementation carried over from earlier cases in this process:
+            # the replay must fail on its own
+            if not fails_in_fresh_process(small):
+                if fails_in_fresh_process(line):
+                    small = line
+                elif fails_in_fresh_process(line, hist):
+                    small, history = line, hist
+                    note = "fails only after the cases in `history` ran in the same process (state carried between calls)"
+                else:
+                    note = ("failed in the checking process but not when replayed alone: state carried over from earlier "
+                            "cases of the run (re-run the check with the same seed to reproduce)")
         impl_s = guarded_impl(small) if small != line else impl
         model_s = lean.ask(model_request(small, impl_s)) if small != line else model
         rp = os.path.join("replays", f"{pid}-{args.seed}-spec.json")
         json.dump({"property": rid, "check": pid, "kind": "spec-violated-on-implementation", "case": small, "original_case": line,
+                   "history": history, "note": note,
                    "origin": origin, "impl_obs": impl_s, "model_obs": model_s,
                    "explain": getattr(mod, "explain", lambda *_: "")(small, impl_s, model_s),
                    "proof_state": proof["broken"], "replay_cmd": f"./check {pid} --replay {rp}"},
